@@ -59,6 +59,8 @@ type CatWrite struct {
 	Ts    uint64 `json:"ts,omitempty"`
 	Shard int    `json:"sh,omitempty"`
 	Pre   bool   `json:"pre,omitempty"` // applied before the CDC reader starts
+	// StartSeq, when set, gives the start position (message id) per shard; default: the beginning of the pchannel
+	StartSeq []int `json:"ss,omitempty"`
 }
 
 func mustMarshal(m proto.Message) string {
@@ -76,7 +78,11 @@ func catCollInfo(w *CatWrite) *pb.CollectionInfo {
 		p := fmt.Sprintf("by-dev-rootcoord-dml_%d", i)
 		info.PhysicalChannelNames = append(info.PhysicalChannelNames, p)
 		info.VirtualChannelNames = append(info.VirtualChannelNames, vchan(p, w.Coll, i))
-		info.StartPositions = append(info.StartPositions, &commonpb.KeyDataPair{Key: p, Data: SeqToMsgID(0)})
+		ss := 0
+		if i < len(w.StartSeq) {
+			ss = w.StartSeq[i]
+		}
+		info.StartPositions = append(info.StartPositions, &commonpb.KeyDataPair{Key: p, Data: SeqToMsgID(ss)})
 	}
 	return info
 }
